@@ -279,6 +279,12 @@ pub fn raw_alphabet(signer: Signer) -> Vec<(&'static str, Vec<u8>)> {
         ("empty-list", vec![0xc0]),
         ("list2", vec![0xc2, 0x01, 0x02]),
         ("longform-list", vec![0xf8, 0x02, 0x01, 0x02]),
+        ("nest[[[]],a]", vec![0xc3, 0xc1, 0xc0, 0x61]),
+        ("nest[[a,[b]],c]", vec![0xc5, 0xc3, 0x61, 0xc1, 0x62, 0x63]),
+        ("nest[a,[b,[c,[d]]]]", vec![0xc7, 0x61, 0xc5, 0x62, 0xc3, 0x63, 0xc1, 0x64]),
+        ("nest[[],[[]],[]]", vec![0xc4, 0xc0, 0xc1, 0xc0, 0xc0]),
+        ("list-truncated-interior", vec![0xc1, 0x81]),
+        ("list-noncanon-interior", vec![0xc2, 0x81, 0x05]),
         ("own-pk", rlp::enc_str(&signer.pub_raw())),
         ("secp-pk1", rlp::enc_str(&K256S::pub_raw(1))),
         ("ed-pk1", rlp::enc_str(&EdS::pub_raw(1))),
@@ -909,7 +915,10 @@ pub fn judge(c: &Case) -> Judged {
     let rk = refspec::ref_decode(&c.bytes, KeyType::K256);
     let rcmb = refspec::ref_decode(&c.bytes, KeyType::Combined);
     let red = refspec::ref_decode(&c.bytes, KeyType::Ed);
-    let spec_defined = !matches!(rk, Verdict::Unspecified(_)) && !matches!(rcmb, Verdict::Unspecified(_)) && !matches!(red, Verdict::Unspecified(_));
+    // the open regions of R-spec suspend the relation, except the weak-ed25519 one: there the statements
+    // do not say which verdict is right, but the ed25519 type and CombinedKey must still agree
+    let open = |v: &Verdict| matches!(v, Verdict::Unspecified(u) if *u != refspec::WEAK_ED);
+    let spec_defined = !open(&rk) && !open(&rcmb) && !open(&red);
     if spec_defined {
         if let (Some(k), Some(l)) = (get(KeyType::K256), get(KeyType::LibSecp)) {
             if k != l {
@@ -993,10 +1002,28 @@ pub fn structural_cases(tier: Tier) -> Vec<Case> {
     all
 }
 
+/// ed25519 records whose public key is one of the eight small-order points, with signatures (R, S = 0)
+/// for every small-order R: cofactor-less and strict verification differ exactly on these.
+pub fn weak_ed_cases() -> Vec<Case> {
+    let mut out = vec![];
+    for (ai, a) in rc::ed_torsion_points().iter().enumerate() {
+        let mut p: BTreeMap<Vec<u8>, Vec<u8>> = BTreeMap::new();
+        p.insert(b"id".to_vec(), rlp::enc_str(b"v4"));
+        p.insert(b"ed25519".to_vec(), rlp::enc_str(a));
+        let items = pair_items(1, &p);
+        for (ri, r) in rc::ed_torsion_points().iter().enumerate() {
+            let mut sig = r.to_vec();
+            sig.extend_from_slice(&[0u8; 32]);
+            out.push(Case { label: format!("ed:small-order-key{ai}/sig:small-order-R{ri},S=0"), bytes: render(&sig, &items, Outer::Canonical), devs: 1, family: "sigfield" });
+        }
+    }
+    out
+}
+
 pub fn authenticity_cases(tier: Tier) -> Vec<Case> {
     let seeds = seed_records(tier);
     let shapes: Vec<Shape> = seeds.iter().map(|(s, _)| s.clone()).collect();
-    let mut cases = vec![];
+    let mut cases = weak_ed_cases();
     for (s, b) in &seeds {
         let quick_subset = s.label.ends_with(":minimal") || s.label.ends_with(":all-reserved") || s.label.ends_with(":lists") || s.label.ends_with(":foreign-key-valid");
         if tier == Tier::Quick && !quick_subset {
